@@ -79,6 +79,25 @@ func analyseHandler(h *clientHandler) {
 		switch x := n.(type) {
 		case *ast.CallExpr:
 			fn := calleeOf(info, x)
+			if fn != nil && fn.Pkg() == h.pk.Types {
+				// a positional decoding helper: helper(..., params, &a, &b, ...) that unmarshals
+				// params[i] into its i-th variadic target and insists on equal lengths
+				if pi, vi, exact := positionalDecoder(h.pk, fn); vi >= 0 && pi < len(x.Args) && vi <= len(x.Args) {
+					if id, ok := ast.Unparen(x.Args[pi]).(*ast.Ident); ok && info.Uses[id] == prm && !x.Ellipsis.IsValid() {
+						for k, a := range x.Args[vi:] {
+							if u, ok := ast.Unparen(a).(*ast.UnaryExpr); ok && u.Op == token.AND {
+								if t, ok := info.Types[u.X]; ok {
+									h.decodes[k] = typeStr(t.Type)
+								}
+							}
+						}
+						if exact {
+							h.maxArity = len(x.Args) - vi
+						}
+					}
+				}
+				return true
+			}
 			if fn == nil || fn.Pkg() == nil || fn.Pkg().Path() != "encoding/json" || fn.Name() != "Unmarshal" || len(x.Args) != 2 {
 				return true
 			}
@@ -99,6 +118,7 @@ func analyseHandler(h *clientHandler) {
 					h.decodes[int(k)] = typeStr(t.Type)
 				}
 			}
+			_ = 0
 		case *ast.BinaryExpr:
 			// len(params) > N  /  len(params) != N
 			if c, ok := ast.Unparen(x.X).(*ast.CallExpr); ok {
@@ -915,4 +935,98 @@ func handlerKinds(p *Program, h *ssa.Function) []*types.Const {
 		}
 	}
 	return out
+}
+
+// positionalDecoder recognises func(..., P []json.RawMessage, ..., targets ...interface{}) error
+// whose body unmarshals P[i] into targets[i] inside `for i, t := range targets` and compares
+// len(P) with len(targets). It returns the index of P, the index of the variadic parameter
+// (-1 when the function is not of that shape) and whether the lengths must be equal.
+func positionalDecoder(pk *packages.Package, fn *types.Func) (int, int, bool) {
+	info := pk.TypesInfo
+	var fd *ast.FuncDecl
+	for _, f := range pk.Syntax {
+		for _, d := range f.Decls {
+			if x, ok := d.(*ast.FuncDecl); ok && info.Defs[x.Name] == fn {
+				fd = x
+			}
+		}
+	}
+	sig, _ := fn.Type().(*types.Signature)
+	if fd == nil || fd.Body == nil || sig == nil || !sig.Variadic() || sig.Params().Len() < 2 {
+		return -1, -1, false
+	}
+	vi := sig.Params().Len() - 1
+	vobj := sig.Params().At(vi)
+	pi := -1
+	var pobj *types.Var
+	for i := 0; i < vi; i++ {
+		if sl, ok := sig.Params().At(i).Type().Underlying().(*types.Slice); ok && isNamed(sl.Elem(), "encoding/json", "RawMessage") {
+			pi, pobj = i, sig.Params().At(i)
+		}
+	}
+	if pi < 0 {
+		return -1, -1, false
+	}
+	decodes, exact := false, false
+	ast.Inspect(fd.Body, func(n ast.Node) bool {
+		switch x := n.(type) {
+		case *ast.RangeStmt:
+			id, ok := ast.Unparen(x.X).(*ast.Ident)
+			if !ok || info.Uses[id] != vobj || x.Key == nil || x.Value == nil {
+				return true
+			}
+			kid, _ := x.Key.(*ast.Ident)
+			vid, _ := x.Value.(*ast.Ident)
+			if kid == nil || vid == nil {
+				return true
+			}
+			ast.Inspect(x.Body, func(m ast.Node) bool {
+				c, ok := m.(*ast.CallExpr)
+				if !ok || len(c.Args) != 2 {
+					return true
+				}
+				cf := calleeOf(info, c)
+				if cf == nil || cf.Pkg() == nil || cf.Pkg().Path() != "encoding/json" || cf.Name() != "Unmarshal" {
+					return true
+				}
+				ix, ok := ast.Unparen(c.Args[0]).(*ast.IndexExpr)
+				if !ok {
+					return true
+				}
+				a, ok1 := ast.Unparen(ix.X).(*ast.Ident)
+				i, ok2 := ast.Unparen(ix.Index).(*ast.Ident)
+				t, ok3 := ast.Unparen(c.Args[1]).(*ast.Ident)
+				if ok1 && ok2 && ok3 && info.Uses[a] == pobj && info.Uses[i] == info.Defs[kid] && info.Uses[t] == info.Defs[vid] {
+					decodes = true
+				}
+				return true
+			})
+		case *ast.BinaryExpr:
+			if x.Op != token.NEQ && x.Op != token.EQL {
+				return true
+			}
+			lenOf := func(e ast.Expr) types.Object {
+				c, ok := ast.Unparen(e).(*ast.CallExpr)
+				if !ok || len(c.Args) != 1 {
+					return nil
+				}
+				if id, ok := c.Fun.(*ast.Ident); !ok || id.Name != "len" {
+					return nil
+				}
+				if a, ok := ast.Unparen(c.Args[0]).(*ast.Ident); ok {
+					return info.Uses[a]
+				}
+				return nil
+			}
+			l, r := lenOf(x.X), lenOf(x.Y)
+			if l != nil && r != nil && (l == types.Object(pobj) && r == types.Object(vobj) || l == types.Object(vobj) && r == types.Object(pobj)) {
+				exact = true
+			}
+		}
+		return true
+	})
+	if !decodes {
+		return -1, -1, false
+	}
+	return pi, vi, exact
 }
